@@ -59,6 +59,7 @@ type Config struct {
 	PLateResp   float64  `json:"p_late_response"`
 	PEdgeResp   float64  `json:"p_expiry_block_response"`
 	PBurst      float64  `json:"p_answer_whole_batch,omitempty"`
+	PCluster    float64  `json:"p_call_cluster,omitempty"`
 	PStranger   float64  `json:"p_stranger"`
 	PParam      float64  `json:"p_param_change"`
 	PDrain      float64  `json:"p_drain"`
@@ -260,6 +261,7 @@ func (m *Module) Configure(w *engine.World, r *engine.Rand) any {
 	c.PLateResp = 0.15 * r.Float()
 	c.PEdgeResp = 0.3 * r.Float()
 	c.PBurst = []float64{0, 0.3, 0.7}[r.Intn(3)]
+	c.PCluster = []float64{0, 0.1, 0.3}[r.Intn(3)]
 	c.PStranger = 0.25 * r.Float()
 	if r.Bool(0.5) {
 		c.PParam = 0.04 * r.Float()
@@ -291,6 +293,7 @@ func (m *Module) Configure(w *engine.World, r *engine.Rand) any {
 			c.Slots[i].Answer = 1
 		}
 		c.PBurst, c.BindRate, c.PParam = 0.8, 1, 0
+		c.PCluster, c.PDrain = 0.4, 0.05
 	}
 	return c
 }
